@@ -101,7 +101,12 @@ def check(case):
         # equivalent oxygens of ASH/GLH (the proton is always called HD2/HE2): no atom
         # moves.  Compare such a pair as an unordered set.
         for o1, o2, c, cb in (("OD1", "OD2", "CG", "CB"), ("OE1", "OE2", "CD", "CG")):
-            if base in ("ASP", "GLU") and all(k in out and k in names for k in (o1, o2, c)):
+            if base in ("ASP", "GLU") and all(k in out and k in names for k in (o1, o2)) and \
+                    float(np.linalg.norm(out[o1] - names[o2])) < 1e-6 and float(np.linalg.norm(out[o2] - names[o1])) < 1e-6:
+                # pure name exchange (also when the carboxyl carbon itself was missing from the input)
+                out[o1], out[o2] = out[o2], out[o1]
+                res.label("carboxyl-names-swapped")
+            elif base in ("ASP", "GLU") and all(k in out and k in names for k in (o1, o2, c)):
                 anchor_atoms = [c] + ([cb] if cb in out and cb in names else [])
                 star = anchor_atoms + [o1, o2]
                 swap = anchor_atoms + [o2, o1]
